@@ -431,6 +431,8 @@ def _maybe_empty(prov):
         return True
     if prov[0] == "shifted":
         return _maybe_empty(prov[1])
+    if prov[0] == "subset" and len(prov) > 1 and isinstance(prov[1], str):
+        return True
     return False
 
 
